@@ -23,7 +23,12 @@ func (c *chanCore) schedState(b *strings.Builder) {
 		b.WriteByte('x')
 	}
 	for _, v := range c.buf {
-		fmt.Fprintf(b, ",%v", v)
+		switch v.(type) {
+		case int, int32, int64, uint32, uint64, string, bool, struct{}:
+			fmt.Fprintf(b, ",%v", v)
+		default: // contents with pointers: the harness' ExtraKey must cover what matters of them
+			fmt.Fprintf(b, ",%T", v)
+		}
 	}
 }
 
